@@ -92,6 +92,7 @@ struct Flavour
     virtual struct pool_head *head() = 0; // the free list (anchors: pool.h:7-10)
     // flavour-specific observers after every call; returns "" or what disagrees
     virtual string observers(const vector<int> &live_tag) = 0;
+    virtual string counts(size_t nlive) = 0; // the counters only (large capacities: the rest is quadratic)
     virtual bool typed() { return false; }
 };
 
@@ -117,6 +118,12 @@ struct CFlavour : Flavour
     void *get(unsigned) override { return pool_alloc(&h); }
     void put(void *p) override { pool_free(&h, p); }
     struct pool_head *head() override { return &h; }
+    string counts(size_t nl) override
+    {
+        if (pool_avail(&h) != cap - nl)
+            return mc::fmt("count: pool_avail()=%zu, capacity %zu - live %zu = %zu", pool_avail(&h), cap, nl, cap - nl);
+        return "";
+    }
     string observers(const vector<int> &lt) override
     {
         size_t nl = 0;
@@ -151,6 +158,17 @@ struct XFlavour : Flavour
     void *get(unsigned) override { return p.get(); }
     void put(void *q) override { p.put(q); }
     struct pool_head *head() override { return &p.head; }
+    string counts(size_t nl) override
+    {
+        if (p.size() != cap || p.element_size() != esz)
+            return mc::fmt("geometry: size()=%zu element_size()=%zu, configured %zu x %zu", p.size(), p.element_size(), cap, esz);
+        if (p.avail() != cap - nl || p.room() != cap - nl)
+            return mc::fmt("count: avail()=%zu room()=%zu, capacity %zu - live %zu = %zu", p.avail(), p.room(), cap, nl, cap - nl);
+        // spot checks of the cell map (the full map is quadratic)
+        if (p.cell_is_allocated(-1) || p.cell_is_allocated((int)cap))
+            return "membership: cell_is_allocated() true outside 0..capacity-1";
+        return "";
+    }
     string observers(const vector<int> &lt) override
     {
         size_t nl = 0;
@@ -204,6 +222,12 @@ template <class T, size_t N> struct SFlavour : Flavour
     void put(void *q) override { p->destroy((T *)q); }
     struct pool_head *head() override { return p->freelist(); }
     bool typed() override { return true; }
+    string counts(size_t nl) override
+    {
+        if (p->avail() != cap - nl)
+            return mc::fmt("count: avail()=%zu, capacity %zu - live %zu = %zu", p->avail(), cap, nl, cap - nl);
+        return "";
+    }
     string observers(const vector<int> &lt) override
     {
         size_t nl = 0;
@@ -544,6 +568,189 @@ template <class T> static void sconfs(vector<Conf> &v, const char *tn, int mx)
         v.push_back(sconf<T, 5>(tn));
 }
 
+// ---------------------------------------------------------------- large capacities (tree shape)
+// The BFS universes stop at 5 cells; a counter or loop index narrowed to 8 or 16 bits is only visible with
+// capacities around 2^8 / 2^16. One case = one (flavour, capacity, element size, free order): allocate until
+// null, free everything in that order, allocate everything again; the counters are compared with the shadow at
+// the boundary counts, every returned block is checked against a bitmap of live cells.
+static const size_t CAPS_Q[] = {127, 128, 255, 256, 257, 300, 1000};
+static const size_t CAPS_T[] = {127, 128, 255, 256, 257, 300, 1000, 65536, 70000};
+static const size_t ES_L[] = {8, 12, 24};
+static const char *ORD[] = {"lifo", "fifo", "stride7"};
+
+static bool boundary(size_t n, size_t cap)
+{
+    static const size_t B[] = {0, 1, 254, 255, 256, 257, 65535, 65536, 65537};
+    for (size_t b : B)
+        if (n == b)
+            return true;
+    return n == cap || n + 1 == cap;
+}
+
+struct Large
+{
+    string flav;
+    Flavour *f;
+    size_t cap;
+    vector<int> live_tag; // per cell: -1 free, else tag
+    vector<int> order;    // cells in the order they were handed out
+    size_t nlive = 0;
+    size_t data;
+    Reg reg;
+    bool failed = false;
+
+    string sig(const char *phase, const string &kind) { return "C10." + flav + ".large." + phase + "." + kind; }
+    void fail(const char *phase, const string &kind, const string &what)
+    {
+        mc::violation(sig(phase, kind), "%s (capacity %zu, element %zu, %zu live)", what.c_str(), cap, f->esz, nlive);
+        failed = true;
+    }
+    // bounded walk of the free list: exactly cap - nlive entries, all of them cells of the zone
+    string count_walk()
+    {
+        struct slist_head *hd = &f->head()->free_blocks;
+        size_t n = 0;
+        for (struct slist_head *it = hd->next; it != hd; it = it->next)
+        {
+            char *c = (char *)it;
+            if (c < f->zone || c >= f->zone + f->esz * cap || (c - f->zone) % f->esz)
+                return mc::fmt("free_list_corrupt: free-list entry #%zu is not a cell of the zone", n);
+            if (++n > cap)
+                return "free_list_corrupt: free list is longer than the capacity (cycle)";
+        }
+        if (n != cap - nlive)
+            return mc::fmt("count: the free list holds %zu cells, capacity %zu - live %zu = %zu", n, cap, nlive, cap - nlive);
+        return "";
+    }
+    void observe(const char *phase)
+    {
+        if (failed)
+            return;
+        string w = count_walk();
+        if (w.empty())
+            w = cap <= 1000 ? f->observers(live_tag) : f->counts(nlive);
+        if (w.empty() && !reg.errs.empty())
+            w = "lifetime: " + reg.errs[0];
+        if (!w.empty())
+            fail(phase, w.substr(0, w.find(':')), w);
+    }
+    bool contents(const char *phase, int cell)
+    {
+        for (size_t j = 0; j < data; j++)
+            if ((unsigned char)f->zone[cell * f->esz + j] != pat((unsigned)live_tag[cell], (unsigned)j))
+            {
+                fail(phase, "contents", mc::fmt("live cell %d changed at byte %zu", cell, j));
+                return false;
+            }
+        return true;
+    }
+    void fill_all(const char *phase)
+    {
+        order.clear();
+        for (size_t i = 0; i < cap && !failed; i++)
+        {
+            unsigned tag = (unsigned)(i * 2654435761u) >> 8;
+            long c0 = reg.ctors;
+            char *q = (char *)f->get(tag);
+            if (!q)
+                return fail(phase, "null_before_capacity", mc::fmt("request #%zu returned null", i + 1));
+            if (q < f->zone || q + f->esz > f->zone + f->esz * cap)
+                return fail(phase, "outside_zone", mc::fmt("request #%zu returned zone%+ld, zone is %zu bytes", i + 1, (long)(q - f->zone), f->esz * cap));
+            if ((q - f->zone) % f->esz || (uintptr_t)q % f->align)
+                return fail(phase, "off_grid", mc::fmt("request #%zu returned zone+%ld", i + 1, (long)(q - f->zone)));
+            int cell = (int)((q - f->zone) / f->esz);
+            if (live_tag[cell] >= 0)
+                return fail(phase, "overlap", mc::fmt("request #%zu returned cell %d which is live", i + 1, cell));
+            if (f->typed())
+            {
+                if (reg.ctors != c0 + 1)
+                    return fail(phase, "lifetime", mc::fmt("create() ran %ld constructors", reg.ctors - c0));
+            }
+            else
+                for (size_t j = 0; j < data; j++)
+                    q[j] = (char)pat(tag, (unsigned)j);
+            live_tag[cell] = (int)tag;
+            order.push_back(cell);
+            nlive++;
+            if (boundary(nlive, cap))
+                observe(phase);
+        }
+        if (failed)
+            return;
+        // the capacity+1st request
+        long c0 = reg.ctors;
+        char *q = (char *)f->get(0);
+        if (q)
+        {
+            bool inzone = q >= f->zone && q + f->esz <= f->zone + f->esz * cap;
+            return fail("exhausted", inzone ? "overlap" : "outside_zone", mc::fmt("request #%zu (capacity + 1) returned zone%+ld instead of null", cap + 1, (long)(q - f->zone)));
+        }
+        if (reg.ctors != c0)
+            return fail("exhausted", "lifetime", "create() returned null but ran a constructor");
+        observe("exhausted");
+        for (size_t i = 0; i < cap && !failed; i++)
+            contents(phase, (int)i);
+    }
+    void free_all(int ord)
+    {
+        vector<int> seq;
+        if (ord == 0)
+            seq.assign(order.rbegin(), order.rend());
+        else if (ord == 1)
+            seq = order;
+        else
+            for (size_t s0 = 0; s0 < 7; s0++)
+                for (size_t i = s0; i < order.size(); i += 7)
+                    seq.push_back(order[i]);
+        string ph = string("free_") + ORD[ord];
+        for (int cell : seq)
+        {
+            if (failed)
+                return;
+            if (!contents(ph.c_str(), cell))
+                return;
+            long d0 = reg.dtors;
+            live_tag[cell] = -1;
+            nlive--;
+            f->put(f->zone + (size_t)cell * f->esz);
+            if (f->typed() && reg.dtors != d0 + 1)
+                return fail(ph.c_str(), "lifetime", mc::fmt("destroy() ran %ld destructors", reg.dtors - d0));
+            if (boundary(nlive, cap))
+                observe(ph.c_str());
+        }
+    }
+    void run(int ord)
+    {
+        g_reg = &reg;
+        live_tag.assign(cap, -1);
+        mc::crash_context("C10.%s.large.fill", flav.c_str());
+        observe("fill"); // 0 live
+        fill_all("fill");
+        mc::crash_context("C10.%s.large.free_%s", flav.c_str(), ORD[ord]);
+        if (!failed)
+            free_all(ord);
+        mc::crash_context("C10.%s.large.refill", flav.c_str());
+        if (!failed)
+            fill_all("refill");
+        mc::nontrivial(); // every case crosses the 2^7 / 2^8 (/ 2^16) counts in both directions
+        mc::outcome(mc::fmt("%s %zu %s", flav.c_str(), cap, failed ? "violation" : "ok"));
+        g_reg = nullptr;
+    }
+};
+
+template <class T, size_t N> static void large_static(int ord, const char *tn)
+{
+    mc::describe("static_object_pool<%s,%zu>, free order %s", tn, N, ORD[ord]);
+    Large L;
+    L.flav = "static_object_pool";
+    g_reg = &L.reg;
+    SFlavour<T, N> fl;
+    L.f = &fl;
+    L.cap = N;
+    L.data = sizeof(T);
+    L.run(ord);
+}
+
 MC_INIT
 {
     static const size_t ES[] = {8, 16, 24};
@@ -585,6 +792,46 @@ MC_INIT
         sconfs<Tracked<24, 8>>(c, "T(size 24, align 8)", mx);
         sconfs<Tracked<32, 16>>(c, "T(size 32, align 16)", mx); // over-aligned
         return std::unique_ptr<mc::Model>(new PoolModel("static_object_pool", c, false, false) /* no reset in its API */);
+    });
+    // ---- large capacities (tree shape; see struct Large)
+    mc::add_check("pools_large", [] {
+        size_t ncap = mc::thorough() ? sizeof CAPS_T / sizeof *CAPS_T : sizeof CAPS_Q / sizeof *CAPS_Q;
+        int c = mc::choose((int)(2 * ncap * 3 * 3));
+        int ord = c % 3;
+        size_t esz = ES_L[c / 3 % 3];
+        size_t cap = (mc::thorough() ? CAPS_T : CAPS_Q)[c / 9 % ncap];
+        int fl = (int)(c / 9 / ncap);
+        mc::describe("%s: %zu cells of %zu bytes, free order %s", fl ? "igris::pool" : "pool_head", cap, esz, ORD[ord]);
+        Large L;
+        L.flav = fl ? "cxx_pool" : "c_pool";
+        std::unique_ptr<Flavour> f(fl ? (Flavour *)new XFlavour(esz, cap) : (Flavour *)new CFlavour(esz, cap));
+        L.f = f.get();
+        L.cap = cap;
+        L.data = esz;
+        L.run(ord);
+    });
+    mc::add_check("static_object_pool_large", [] {
+        int c = mc::choose(4 * 2 * 3);
+        int ord = c % 3, ty = c / 3 % 2, n = c / 6;
+        typedef Tracked<8, 8> T8;
+        typedef Tracked<24, 8> T24;
+#define C10_LS(N)                                                                                                      \
+    if (ty == 0)                                                                                                       \
+        large_static<T8, N>(ord, "T(size 8)");                                                                         \
+    else                                                                                                               \
+        large_static<T24, N>(ord, "T(size 24)");
+        switch (n)
+        {
+        case 0:
+            C10_LS(255) break;
+        case 1:
+            C10_LS(256) break;
+        case 2:
+            C10_LS(257) break;
+        default:
+            C10_LS(300) break;
+        }
+#undef C10_LS
     });
 }
 MC_MAIN
